@@ -76,6 +76,43 @@ def generate(defn, cse, k, max_dt, decl, namespace="fv", cfg=None):
 LAST_RERENDER = None
 
 
+def generate_plain(defn, cse, decl, assumptions, namespace="fv"):
+    """the model-only generator behind cpp.compile (no filter): struct State / Control / Calibration and Model::model"""
+    syms, model, sensors, pn, sn, cm = G.build(defn, decl, assumptions=assumptions)
+    cfg = cpp.Config(common_subexpression_elimination=cse)
+    gen = cpp._generate_model_function_bodies("generated/fv_filter.h", namespace, model, cm, cfg)
+    return "\n".join(cpp.header_from_ast(generator=gen)), "\n".join(cpp.source_from_ast(generator=gen))
+
+
+def driver_plain(defn, points):
+    S, U, C = sorted(defn["state"]), sorted(defn["control"]), sorted(defn["calibration"])
+    L = ['#include <fv_filter.h>', '#include <cstdio>', '#include <cmath>', 'using namespace fv;',
+         'static void P(const char* l, double v) { std::printf("%s %a\\n", l, v); }', 'int main() {']
+    for pi, p in enumerate(points):
+        L.append("{")
+        L.append(f'std::printf("POINT {pi}\\n");')
+        L.append("StateOptions so;")
+        L += [f"so.{s} = {hexf(p['state'][s])};" for s in S]
+        L.append("State state(so);")
+        args = "state"
+        if C:
+            L.append("CalibrationOptions cao;")
+            L += [f"cao.{c} = {hexf(defn['calibration_map'][c])};" for c in C]
+            L.append("Calibration calibration(cao);")
+            args += ", calibration"
+        if U:
+            L.append("ControlOptions co;")
+            L += [f"co.{u} = {hexf(p['control'][u])};" for u in U]
+            L.append("Control control(co);")
+            args += ", control"
+        L.append(f"Model mdl; State m = mdl.model({hexf(p['dt'])}, {args});")
+        for i, s in enumerate(S):
+            L.append(f'P("model/{i}/0", m.data({i}, 0)); P("plainacc/{s}", m.{s}());')
+        L.append("}")
+    L.append("return 0; }")
+    return "\n".join(L)
+
+
 def np_list(a):
     import numpy as _np
     return _np.asarray(a, dtype=float).tolist()
@@ -166,7 +203,11 @@ def driver(defn, points, managed=False):
 def run_job(job, workroot):
     defn = job["defn"]
     out = {}
-    header, source = generate(defn, job["cse"], job.get("k"), job.get("max_dt", 0.1), job.get("decl"))
+    if job.get("plain_model") is not None:
+        header, source = generate_plain(defn, job["cse"], job.get("decl"), job["plain_model"].get("assumptions"))
+        job = dict(job, driver_text=driver_plain(defn, job["points"]))
+    else:
+        header, source = generate(defn, job["cse"], job.get("k"), job.get("max_dt", 0.1), job.get("decl"))
     import re as _re
     mk = _re.search(r"static constexpr double innovation_filtering\s*=\s*([^;]+);", header)
     out["emitted_k"] = mk.group(1).strip() if mk else None
